@@ -188,11 +188,11 @@ def parent_entry(rng, path, ino, args, swap_max=None):
             "swap_max": swap_max if swap_max is not None else "max", "swap_cur": 0}
 
 
-def gen_one(rng, tier):
+def gen_one(rng, tier, slow=False):
     mode = {
-        "immediate": rng.random() < 0.5,
+        "immediate": slow or rng.random() < 0.5,
         "tmp": pick(rng, [(5, "none"), (3, "all"), (2, "some")]),
-        "reclaim": pick(rng, [(4, "none"), (4, "all"), (2, "some")]),
+        "reclaim": "none" if slow else pick(rng, [(4, "none"), (4, "all"), (2, "some")]),
         "fault": pick(rng, [(5, 0.0), (3, 0.03), (2, 0.12)]),
         "churn": pick(rng, [(5, 0.0), (3, 0.08), (2, 0.25)]),
         "big": rng.random() < 0.07,
@@ -203,6 +203,9 @@ def gen_one(rng, tier):
     if mode["swapval"] or mode["modulate"]:
         mode["swap"] = rng.random() < 0.85
     args = gen_args(rng, mode)
+    if slow:
+        # the memory.high poke of immediate-backoff mode goes through the time-out helper thread and blocks in "reclaim"
+        args["memory_high_timeout_ms"] = "50"
     names = rng.sample(["a", "b", "c", "ab", "b2"], rng.randint(1, 4))
     nested = rng.random() < 0.15
     pat = pick(rng, [(5, "w/*"), (1, "w/?"), (1, ",".join("w/" + n for n in names[:2])), (1, "w/a*,w/b"), (1, "w/*,w/a")])
@@ -270,6 +273,8 @@ def gen_one(rng, tier):
                 cgs.append(lf.entry(mode))
         cgs.append(decoy.entry(mode))
         ticks.append({"sys": sysj, "cgs": cgs})
+        if slow:
+            ticks[-1]["slow"] = {c["p"]: 400 for c in cgs if rng.random() < 0.6}
     sc = {"args": args, "memtotal_kb": memtotal, "ticks": ticks}
     if rng.random() < 0.01:
         sc["meminfo_missing"] = True
@@ -278,8 +283,8 @@ def gen_one(rng, tier):
 
 def gen(rng, tier):
     n = {"quick": 1600, "thorough": 20000, "search": 8000}[tier]
-    for _ in range(n):
-        yield gen_one(rng, tier)
+    for i in range(n):
+        yield gen_one(rng, tier, slow=(i % 16 == 7))
 
 
 def n_writes(t):
@@ -350,4 +355,6 @@ def extra_coverage(results):
     _sweep_stale_worlds()
     margin = sum(int(v.get("margin", 0) or 0) for (_, _, v) in results)
     writes = sum(n_writes(t) for (_, t, _) in results)
-    return {"writes_compared": writes, "oracle_rounding_margin_skips": margin}
+    return {"writes_compared": writes, "oracle_rounding_margin_skips": margin,
+            "slow_poke_scenarios": sum(1 for s, _, _ in results if any("slow" in t for t in s.get("ticks", []))),
+            "poke_writes_interrupted_by_timeout": sum(t.get("interrupted_writes", 0) for _, t, _ in results)}
